@@ -31,6 +31,17 @@ class Contract:
         self.tier = kw.pop('tier', 'quick')
         self.dead_loops = list(kw.pop('dead_loops', []))   # loops that are unreachable under the contract (no reachability cover demanded)
         self.max_paths = kw.pop('max_paths', 24)     # live paths before sibling states are merged
+        # generator functions (two-phase constructors): clauses proved at the `yield` (result = the yielded value, old = entry),
+        # what the rest of the world may change while the generator is suspended, and what is assumed when it is resumed.
+        # `ensures` of a generator are proved at exhaustion with old = the state at resumption and `yielded` = the yielded value.
+        # cut points: [(prefix of ast.unparse(statement), [clauses])]: proved right after that statement on every path that reaches it, then
+        # assumed -- a lemma placed where it is easy, so that the obligations further down do not have to re-derive it through merged states
+        self.cuts = list(kw.pop('cuts', []))
+        self.split_loops = kw.pop('split_loops', False)   # up to 4 incoming paths enter a loop separately (its obligations are generated per path)
+        self.at_yield = list(kw.pop('at_yield', []))
+        self.yield_labels = dict(kw.pop('yield_labels', {}))
+        self.resume_modifies = list(kw.pop('resume_modifies', []))
+        self.resume_ensures = list(kw.pop('resume_ensures', []))
         if kw:
             raise TypeError('unknown contract keys %s for %s' % (list(kw), qual))
 
